@@ -234,6 +234,8 @@ Proof.
       by (destruct cap; destruct (power =? 0); inversion H; eexists; eexists; reflexivity).
     destruct E as [f [c ->]]. cbn [burned_action]. split; [|left; reflexivity].
     change (supply L C (set_validators s _ _) ast) with (supply L C s ast). lia.
+  - (* IbcRelayFailing: never executes *)
+    destruct cap; discriminate H.
 Qed.
 
 Lemma c01a_action s signer tx idx ca s' evs L C ast :
@@ -248,7 +250,9 @@ Proof.
   destruct (c01a_pay_fee _ _ _ _ _ _ _ _ L C ast HndL Hs Hp) as [Ep Sp].
   assert (Hx : (exists r len fa, fst ca = ARollup r len fa) \/
                (do s2 <- execute_action s1 signer tx idx ca; Ok (s2, e1)) = Ok (s', evs)).
-  { destruct (fst ca); try (right; exact H). left; eauto. }
+  { destruct (fst ca) eqn:Ea; try (right; exact H); [left; eauto|].
+    exfalso. destruct (execute_action s1 signer tx idx ca) as [s2|e] eqn:E; [|discriminate H].
+    exact (execute_relay_failing_never_ok _ _ _ _ _ _ _ Ea E). }
   destruct Hx as [[r [len [fa Hr]]]|Hx].
   - rewrite Hr in *. inversion H; subst; clear H. cbn [burned_action].
     split; [lia|congruence].
